@@ -13,11 +13,59 @@ META = dict(
          "weaker competing branch, below the fork point of both) x distance to the best header (2016 / 2017 blocks) x minimum chain work (below / "
          "equal / above the best header's work) x assumed-valid (unset / set / unknown hash). For each row the harness builds the real header tree "
          "(~2100 blocks), configures a fresh node, feeds all headers, then the blocks up to the bad block, and requires that the bad block is "
-         "accepted only where the conditions hold.",
+         "accepted only where the conditions hold. AssumeValidHist adds connection HISTORY: the bad block is connected (scripts skipped, per-block "
+         "'scripts valid' flag raised), disconnected by a reorg to a side branch or by invalidateblock, the header tree changes (best header moves to the side branch, "
+         "or a far descendant header is invalidated), and the block is connected again by a reorg back or reconsiderblock; TLC proves that the bad block is in the "
+         "active chain only if the conditions held at its most recent connection (and finds the violation for a decision that trusts the flag); every transition of "
+         "that graph is replayed on a real node.",
     note="SAFE mode: a node that verifies scripts where skipping is allowed is counted (verified_where_skip_allowed), not reported. The bad block's "
          "reject reason must be the script failure; any other reason is a harness defect and reported as such.",
     technique="TLA+ decision table (procedural = declarative, TLC), every row replayed on a real node with real header trees",
 )
+
+
+def histories(ctx, binary):
+    """Connection histories (AssumeValidHist): the decision is taken at EVERY connection with the header tree of that moment."""
+    # negative control of the model: a decision that trusts the per-block 'scripts valid' flag must be caught by TLC
+    r = ctx.tlc("AssumeValid", "MC_hist", "NEG_hist_flag.cfg", name="NEG_hist_flag", expect_violation=True, emit=False)
+    if r.error or r.violated != "BadOnlyIfCondsHeldThen":
+        raise vflib.InfraError("negative control NEG_hist_flag: TLC did not find the stale-flag acceptance (violated=%s %s)" % (r.violated, r.error or ""))
+    ctx.extra["negative_controls"] = {"NEG_hist_flag": r.violated}
+    cfg = "E1_hist_q.cfg" if ctx.tier == "quick" else "E1_hist_t.cfg"
+    r = ctx.tlc("AssumeValid", "MC_hist", cfg, name=cfg[:-4])
+    recs = vflib.load_emitted(r.emit_path)
+    geo = [x for x in recs if "geometry" in x]
+    edges = [x for x in recs if "geometry" not in x]
+    if not geo:
+        raise vflib.InfraError("specification did not print its geometry")
+    geo = geo[0]["geometry"]
+    per_action = collections.Counter(e["a"][0] for e in edges)
+    missing = [a for a in ("start", "forkaway", "sidehdrs", "invfar", "comeback", "invx", "reconsx") if not per_action[a]]
+    # re-connections of X: accepted again (conditions still hold) and refused (conditions falsified in between)
+    recon_ok = sum(1 for e in edges if e["f"]["flag"] and not e["f"]["xin"] and e["t"]["xin"])
+    recon_refused = sum(1 for e in edges if e["f"]["flag"] and not e["f"]["xin"] and not e["f"]["xfailed"] and e["t"]["xfailed"] and e["a"][0] in ("comeback", "reconsx"))
+    if missing or not recon_ok or not recon_refused:
+        raise vflib.InfraError("vacuity (histories): missing actions %s, re-connections accepted %d refused %d" % (missing, recon_ok, recon_refused))
+    g = vflib.Graph(edges)
+    paths = list(g.path_cover())
+    for p in paths:
+        acts = [s["a"][0] for s in p["steps"]]
+        if any(s["exp"]["flag"] for s in p["steps"][:-1]):
+            ctx.nontrivial.add(vflib.digest([p["init"]["cfg"], acts]))
+    ctx.log("histories: %d states, %d transitions -> %d paths, %d steps; re-connections accepted %d / refused %d in the model" % (
+        len(g.nodes), g.nedges, len(paths), sum(len(p["steps"]) for p in paths), recon_ok, recon_refused))
+    mid = paths[len(paths) // 2]
+    ctx.sample(dict(history=[s["a"][0] for s in mid["steps"]], config=mid["init"]["cfg"], bad_block_in_chain=[s["exp"]["xin"] for s in mid["steps"]]))
+    args = [geo["hb"], geo["fork"], geo["avh"], geo["farh"]]
+    res = ctx.run_harness(binary, "history", paths, args=args, nproc=min(vflib.free_cpus(), 8), timeout=2400, name="history")
+    s = res["summary"]
+    ctx.evaluations += int(s["steps"]); ctx.traces += int(s["tests"])
+    ctx.extra["history_transitions_covered"] = g.nedges
+    ctx.extra["history_steps_replayed"] = int(s["steps"])
+    ctx.extra["history_steps_bad_block_in_chain"] = int(s.get("steps_with_bad_block_in_chain", 0))
+    ctx.extra["history_diverged_conservative"] = int(s.get("verified_where_skip_allowed", 0))
+    ctx.extra["history_transitions_per_action"] = dict(per_action)
+    vflib.report_mismatches(ctx, binary, "history", res, args=args, adapter="assumevalid", what_prefix="AssumeValid history: ")
 
 
 def run(ctx):
@@ -36,8 +84,8 @@ def run(ctx):
     rows.sort(key=lambda x: (x["pos"], x["dist"], x["av"], x["mcw"]))
     res = ctx.run_harness(binary, "table", rows, nproc=min(vflib.free_cpus(), 7), timeout=2400)
     s = res["summary"]
-    ctx.evaluations = int(s["tests"]); ctx.traces = ctx.evaluations
-    ctx.nontrivial = set(vflib.digest(x) for x in rows if x["av"] == "set")
+    ctx.evaluations += int(s["tests"]); ctx.traces += int(s["tests"])
+    ctx.nontrivial |= set(vflib.digest(x) for x in rows if x["av"] == "set")
     ctx.extra["rows_per_decision"] = dict(by_reason)
     ctx.extra["node_accepted_bad_block"] = int(s.get("accepted", 0))
     ctx.extra["node_rejected_bad_block_for_script"] = int(s.get("rejected_for_script", 0))
@@ -47,7 +95,11 @@ def run(ctx):
         ctx.sample(x)
     vflib.report_mismatches(ctx, binary, "table", res, adapter="assumevalid", what_prefix="AssumeValid: ",
                             key_fn=lambda m, case: "row:" + vflib.digest([m.get("action", {}).get(k) for k in ("pos", "dist", "mcw", "av")]))
+    histories(ctx, binary)
     ctx.assumptions += ["regtest: every block has proof 2 and 10-minute target spacing, so two weeks of work = 2016 blocks; the bad block is at height 102",
-                        "all headers are known before the blocks are delivered; blocks above the bad block are never delivered"]
+                        "table rows: all headers are known before the blocks are delivered; blocks above the bad block are never delivered",
+                        "histories: one bad block below the assumed-valid block; the conditions are falsified between connections by moving the best header to a side branch "
+                        "(header-only extension) or by invalidating a far descendant header; re-connection by reorg back or by invalidateblock/reconsiderblock"]
     return ctx.finish(level="model_checking", exhaustive=True,
-                      rule="every row of the decision table (position x distance x minimum chain work x assumed-valid setting); non-trivial = rows with an assumed-valid block that is in the index")
+                      rule="every row of the decision table (position x distance x minimum chain work x assumed-valid setting) plus a path cover of every transition of the bounded "
+                           "connection-history graph; non-trivial = rows with an assumed-valid block in the index, and history paths that act after the bad block was connected once")
